@@ -153,7 +153,8 @@ pub fn loggers() -> Loggers {
 
 /// engine context for a model context; function bindings become logging closures
 pub fn context_of(model: &BTreeMap<String, Binding>) -> Context {
-    let mut ctx = Context::new();
+    // an empty context is built the documented way, with the argument-less macro
+    let mut ctx = if model.is_empty() { expression_engine::create_context!() } else { Context::new() };
     for (k, b) in model {
         match b {
             Binding::Var(v) => ctx.set_variable(k, v.to_value()),
